@@ -56,7 +56,10 @@ Inductive value :=
 | VNull
 | VInt (z : Z)        (* int64 *)
 | VReal (q : Z)       (* float64; the harness uses the exactly representable q/8 *)
-| VText (s : N).      (* string / []uint8, identified by an abstract id *)
+| VText (s : N)       (* string / []uint8, identified by an abstract id *)
+| VTime (ns : Z).     (* time.Time (what the driver hands over for a column declared DATE / DATETIME / TIMESTAMP):
+                         the INSTANT, in nanoseconds since the Unix epoch -- the text layout in the file is the
+                         driver's, not the source's, and is not part of the value *)
 
 Definition pt := (Z * Z)%type.
 
@@ -340,6 +343,7 @@ Definition value_eqb (a b : value) : bool :=
   | VInt x, VInt y => Z.eqb x y
   | VReal x, VReal y => Z.eqb x y
   | VText x, VText y => N.eqb x y
+  | VTime x, VTime y => Z.eqb x y
   | _, _ => false
   end.
 
